@@ -97,7 +97,9 @@ func (v Version) StringWithoutEpoch() string {
 }
 
 func (v Version) String() string {
-	if v.Epoch > 0 {
+	// An upstream version containing a colon is only unambiguous when the
+	// epoch is spelled out, even if it is zero.
+	if v.Epoch > 0 || strings.Contains(v.Version, ":") {
 		return fmt.Sprintf("%d:%s", v.Epoch, v.StringWithoutEpoch())
 	}
 	return v.StringWithoutEpoch()
